@@ -245,6 +245,18 @@ impl OpenOptions {
     }
 }
 
+/// A table that cannot be decoded is tolerated while opening (the other table set may
+/// still serve), but a failing device is not a damaged table: an error reported by the
+/// operating system aborts the open instead of yielding an archive with tables missing.
+fn reject_device_error(e: &Error) -> Result<()> {
+    if let Error::Io(io) = e
+        && let Some(code) = io.raw_os_error()
+    {
+        return Err(Error::Io(std::io::Error::from_raw_os_error(code)));
+    }
+    Ok(())
+}
+
 impl Default for OpenOptions {
     fn default() -> Self {
         Self::new()
@@ -345,6 +357,7 @@ impl Archive {
                             het_size = size;
                         }
                         Err(e) => {
+                            reject_device_error(&e)?;
                             log::warn!("Failed to determine HET table size: {e}");
                         }
                     }
@@ -368,6 +381,7 @@ impl Archive {
                             self.het_table = Some(het);
                         }
                         Err(e) => {
+                            reject_device_error(&e)?;
                             log::warn!("Failed to load HET table: {e}");
                         }
                     }
@@ -395,6 +409,7 @@ impl Archive {
                             bet_size = size;
                         }
                         Err(e) => {
+                            reject_device_error(&e)?;
                             log::warn!("Failed to determine BET table size: {e}");
                         }
                     }
@@ -437,6 +452,7 @@ impl Archive {
                                 self.bet_table = Some(bet);
                             }
                             Err(e) => {
+                                reject_device_error(&e)?;
                                 log::warn!("Failed to load BET table: {e}");
                             }
                         }
@@ -503,6 +519,7 @@ impl Archive {
                                 }
                             }
                             Err(e) => {
+                                reject_device_error(&e)?;
                                 log::warn!("Failed to decompress hash table: {e}");
                             }
                         }
@@ -553,6 +570,7 @@ impl Archive {
                             }
                         }
                         Err(e) => {
+                            reject_device_error(&e)?;
                             log::warn!("Failed to decompress hash table: {e}");
                             // Try to read as truncated uncompressed table
                             // Calculate how many entries we can fit in available space
@@ -578,6 +596,7 @@ impl Archive {
                                         log::info!("Successfully loaded truncated hash table");
                                     }
                                     Err(e2) => {
+                                        reject_device_error(&e2)?;
                                         log::warn!("Failed to read truncated hash table: {e2}");
                                     }
                                 }
@@ -595,6 +614,7 @@ impl Archive {
                             self.hash_table = Some(hash_table);
                         }
                         Err(e) => {
+                            reject_device_error(&e)?;
                             log::warn!("Failed to read hash table: {e}");
                         }
                     }
@@ -649,6 +669,7 @@ impl Archive {
                                 }
                             }
                             Err(e) => {
+                                reject_device_error(&e)?;
                                 log::warn!("Failed to decompress block table: {e}");
                             }
                         }
@@ -704,6 +725,7 @@ impl Archive {
                             }
                         }
                         Err(e) => {
+                            reject_device_error(&e)?;
                             log::warn!("Failed to decompress block table: {e}");
                             // Try to read as truncated uncompressed table
                             // Calculate how many entries we can fit in available space
@@ -724,6 +746,7 @@ impl Archive {
                                         log::info!("Successfully loaded truncated block table");
                                     }
                                     Err(e2) => {
+                                        reject_device_error(&e2)?;
                                         log::warn!("Failed to read truncated block table: {e2}");
                                     }
                                 }
@@ -741,6 +764,7 @@ impl Archive {
                             self.block_table = Some(block_table);
                         }
                         Err(e) => {
+                            reject_device_error(&e)?;
                             log::warn!("Failed to read block table: {e}");
                         }
                     }
